@@ -122,6 +122,17 @@ Proof. vm_compute. reflexivity. Qed.
 Lemma at_sweep : forallb (fun c => tok_is (fst c) (snd c)) at_cases = true.
 Proof. vm_compute. reflexivity. Qed.
 
+(* the table of escape-resolved token types (regenerated from tokenize2.py) covers the classes whose
+   `classify` value is the resolved text, and only STRING (and INVALID) are cleaned *)
+Lemma resolved_types_cover :
+  forallb (fun n => mem_str n resolved_types)
+    [s "IDENT"; s "FUNCTION"; s "HASH"; s "DIMENSION"; s "STRING"; s "URI"; s "UNICODE-RANGE"; s "COMMENT"] = true /\
+  forallb (fun n => negb (mem_str n resolved_types))
+    [s "NUMBER"; s "PERCENTAGE"; s "S"; s "CHAR"; s "ATKEYWORD"; s "INCLUDES"; s "CDO"; s "CDC"] = true /\
+  mem_str (s "STRING") clean_types = true /\ mem_str (s "IDENT") clean_types = false /\
+  mem_str (s "URI") clean_types = false.
+Proof. vm_compute. repeat split; reflexivity. Qed.
+
 (* ---- refutations: the two places where the pinned tokenizer leaves the lexeme grammar ---- *)
 (* literal escape of a backslash followed by a hex digit: the grammar says  \\ then 41  (value \\41),
    the tokenizer re-reads the second backslash as the start of a hex escape                      *)
